@@ -16,8 +16,9 @@ SPEC = {
         "WOFF2 encoder / plain-glyf parser used to produce ground truth",
     ],
     "assumptions": [
-        "tables are shorter than 2^32 bytes; coordinates of the original glyphs are int16 and, for builds with overflow checks, "
-        "so are the deltas between consecutive points (what a TrueType glyph can store)",
+        "tables are shorter than 2^32 bytes; coordinates of the original glyphs are int16 (the transformed-glyf round trip "
+        "holds for any deltas in debug and release builds; the end-to-end theorem additionally asks for int16 deltas between "
+        "consecutive points, which is what a TrueType glyph can store and what SimpleGlyph::write accepts)",
         "control flow of Woff2TableProvider::new, the glyf/loca/head/hmtx writers, GlyfTable::read_dep and the head/maxp/hhea "
         "readers is modelled by hand and tied by correspondence only (the workaround branch of GlyfTable::read_dep for a loca "
         "entry beyond the table is not modelled: such cases are skipped)",
